@@ -319,3 +319,39 @@ func VH_C03_rerunAfterFailure() {
 	vAssert(len(log) == 2 && log[1] == 1, "flow-ends-exactly-where-the-table-ends")
 	vCover("second-run")
 }
+
+// a user type that embeds *Flow and overrides Post (an adapter around a reusable sub-flow that
+// translates the sub-flow's final action) is a node like any other: the enclosing flow routes on
+// the action ITS Post returns
+type c03Adapter struct {
+	*Flow
+	out   Action
+	posts int
+}
+
+func (a *c03Adapter) Post(ctx context.Context, s *SharedStore, p, e any) (Action, error) {
+	a.posts++
+	return a.out, nil
+}
+
+func VH_C03_flowAdapter() {
+	vUnwind(8)
+	x := &c03NameProbe{act: "valid"}
+	s := &c03Adapter{Flow: NewFlow(x), out: "done"}
+	b, c := &c03NameProbe{act: "stop-here"}, &c03NameProbe{act: "stop-here"}
+	var err error
+	if vNondet[bool]("inFlow") {
+		a := &c03NameProbe{act: "go"}
+		outer := NewFlow(a)
+		outer.Connect(a, "go", s).Connect(s, "done", b).Connect(s, "valid", c)
+		err = outer.Run(vNewCtx(), NewSharedStore())
+		vAssert(err == nil, "routing-never-fails")
+		vAssert(x.visits == 1 && b.visits == 1 && c.visits == 0, "visited-node-is-the-one-the-table-determines")
+	} else {
+		var act Action
+		act, err = Run(vNewCtx(), s, NewSharedStore())
+		vAssert(err == nil && act == "done" && x.visits == 1, "visited-node-is-the-one-the-table-determines")
+	}
+	vAssert(s.posts == 1, "start-node-runs")
+	vCover("flow-adapter")
+}
